@@ -411,6 +411,39 @@ pub fn run(prop: &str, tier: &str, replay: Option<&str>) -> i32 {
         });
         rep.add(sec);
     }
+    // 3c. long runs: every ordered pair of operations alternating far beyond any counter an implementation might keep
+    // (70,000 steps, thorough 300,000: past 256 and 65,536), oracle on every step
+    if run::replay().map(|r| r.case.get("history").is_none()).unwrap_or(true) {
+        let a3 = Alphabet::new(3);
+        let ops3 = ops(3);
+        let steps: usize = if thorough { 300_000 } else { 70_000 };
+        let pairs: Vec<(usize, usize)> = (0..ops3.len()).flat_map(|a| (0..ops3.len()).map(move |b| (a, b))).collect();
+        let sec = Section::new("long-runs/alternating pairs", &format!("every ordered pair of the {} operations over 3 types x {} values alternating for {} steps on one name (after a prefix that fills it): reference vector, lookups and internal invariants after every step", ops3.len(), values().len(), steps)).with_deadline(if thorough { 900 } else { 30 });
+        run::sweep_cases(&sec, &pairs, &|p| format!("{:?} / {:?}", ops3[p.0], ops3[p.1]), &|p| {
+            let mut out = Outcome::default();
+            let mut dn = DistinguishedName::new();
+            let mut m = RefDn::new();
+            // prefix: the other types present, so that positions matter
+            for op in [Op::Push(0, 0), Op::Push(1, 1), Op::Push(2, 2)] {
+                a3.real_apply(&mut dn, op);
+                ref_apply(&mut m, op);
+            }
+            for step in 0..steps {
+                let op = if step % 2 == 0 { ops3[p.0] } else { ops3[p.1] };
+                let r = a3.real_apply(&mut dn, op);
+                let w = ref_apply(&mut m, op);
+                let bad = if r != w { Some(format!("remove returned {:?}, reference {:?}", r, w)) } else { a3.check_state(&dn, &m) };
+                if let Some(e) = bad {
+                    out.findings.push(Finding::new("DN-DIVERGES-FROM-REFERENCE", "long run", format!("step {}: {}", step + 1, e)));
+                    break;
+                }
+            }
+            out.transitions = steps as u64;
+            out.digest = fnv(format!("{:?}", m).as_bytes());
+            out
+        });
+        rep.add(sec);
+    }
     // 4. unmerged DFS over all histories up to a depth (no accessor, no state merging)
     {
         let a4 = Alphabet::new(4);
